@@ -20,7 +20,8 @@ THEOREMS = {
     },
     "C07": {
         "modules": ["Abnf.Theorems.C07"],
-        "theorems": ["Abnf.C07.parse_order_independent", "Abnf.C07.parse_all_order_independent", "Abnf.C07.listed_ends_distinct"],
+        "theorems": ["Abnf.C07.parse_order_independent", "Abnf.C07.parse_all_order_independent", "Abnf.C07.listed_ends_distinct",
+                     "Abnf.C07.parse_deterministic", "Abnf.C07.two_processes_agree"],
     },
     "C04": {
         "modules": ["Abnf.Theorems.C04"],
